@@ -15,6 +15,9 @@ trace checker `goodB` sound, so that a trace recorded from real nodes and accept
 
 Not carried by these theorems (DESIGN.md C01): that the Go node satisfies O0–O3 on every
 schedule is the subject of C03 (model `Cs.step`) and of the trace validation done on every run;
+`KV/Props/C01Cs.lean` derives `Good` — and hence agreement — for every execution of a network of
+`Cs` nodes from the C03 invariants (hypotheses: same powers, authentic votes of correct
+validators, C03's timeout hypothesis);
 equal chain prefix ⇒ equal validator set across heights is a hypothesis (C06/C12/C14).
 -/
 namespace KV.Agree
